@@ -271,8 +271,33 @@ class C04(Prop):
             if net:
                 st["net"] = net
             steps.append(st)
+        mutable = [codec.dec(e[0]) for e in expect if e[2] in ("obj", "json")
+                   and isinstance(codec.dec(e[1]), (list, dict, set, codec.Point))]
+        if mutable and rng.random() < 0.5:
+            # the caller modifies what a fetch returned (and does not store it): later fetches still return
+            # what the server holds
+            mk = rng.choice(mutable)
+            steps.append({"t": "call", "m": rng.choice(["get", "gets"]), "a": [E(mk)], "k": {}})
+            steps.append({"t": "mutate", "ref": len(steps) - 1})
+            steps.append({"t": "call", "m": rng.choice(["get", "gets", "gat"]), "a": [E(mk)], "k": {}})
+        dubious = None
+        if sk in ("pickle", "compressed") and rng.random() < 0.06:
+            # text that is not encodable as strict UTF-8 (lone surrogates, e.g. from a surrogateescape-decoded file
+            # name): the store may refuse it - but if the store is acknowledged, the value has to come back
+            dk = legal_key(rng, len(prefix), unicode_ok)
+            if wire_key(dk, prefix, unicode_ok) not in seen:
+                sv = rng.choice([b"report-\xe9t\xe9.pdf".decode("utf-8", "surrogateescape"), "\ud83d", "ok\udcff!"])
+                steps.append({"t": "call", "m": "set", "a": [E(dk), E(sv)], "k": {"noreply": False}, "tag": "dubious-set"})
+                steps.append({"t": "call", "m": rng.choice(["get", "get_many"]), "a": [E(dk)], "k": {}, "tag": "dubious-get"})
+                if steps[-1]["m"] == "get_many":
+                    steps[-1]["a"] = [E([dk])]
+                    steps[-1]["coll"] = "list"
+                    steps[-1]["keys"] = [E(dk)]
+                dubious = {"key": E(dk), "value": E(sv)}
         base = {"property": self.id, "world": w, "steps": steps, "expect": expect,
                 "cfg": {"prefix": E(prefix), "unicode": unicode_ok, "encoding": encoding, "serde": serde}}
+        if dubious:
+            base["dubious"] = dubious
         if rng.random() < 0.25:
             # every cut position in the last bytes of one single-key reply (value end, CR|LF, END line)
             singles = [i for i, st in enumerate(steps) if st.get("m") in ("get", "gets", "gat", "gats", "__getitem__")]
@@ -382,9 +407,20 @@ class C04(Prop):
 
         last = res.calls[-1] if res.calls else None
         # any unexpected exception in the history (legal keys and values must be accepted)
+        dub = scn.get("dubious")
+        dub_stored = False
+        for rec in res.calls:
+            if rec.step >= 0 and scn["steps"][rec.step].get("tag") == "dubious-set":
+                dub_stored = rec.outcome == "return" and rec.value is True
         for rec in res.calls:
             if rec.step >= 0 and rec.outcome == "raise":
                 st = scn["steps"][rec.step]
+                if st.get("tag") == "dubious-set":
+                    continue            # refusing a value that cannot be encoded is fine
+                if st.get("tag") == "dubious-get" and dub_stored:
+                    out.append(viol("acknowledged-store-not-fetchable", rec, exc=type(rec.exc).__name__,
+                                    msg=engine._exc_text(rec.exc)[:100]))
+                    continue
                 disc = "one-shot-iterator" if st.get("coll") == "iter" else None
                 out.append(viol("legal-input-raised", rec, disc=disc, exc=type(rec.exc).__name__,
                                 msg=engine._exc_text(rec.exc)[:100]))
@@ -398,7 +434,8 @@ class C04(Prop):
                 elif not self.check_stored(cfg, it[0], it[1], v):
                     out.append(viol("stored-bytes-or-flags-wrong", last, key=repr(k)[:60], flags=it[1],
                                     data=repr(it[0][:60])))
-            extra = [wk for wk in store if wk not in by_wk]
+            dwk = wire_key(codec.dec(dub["key"]), prefix, uni) if dub else None
+            extra = [wk for wk in store if wk not in by_wk and wk != dwk]
             if extra:
                 out.append(viol("unexpected-key-on-server", last, keys=[repr(x)[:60] for x in extra][:5]))
         # (ii)/(iii) fetch results
@@ -407,6 +444,15 @@ class C04(Prop):
                 continue
             st = scn["steps"][rec.step]
             m = rec.method
+            if st.get("tag") == "dubious-get":
+                if dub_stored:
+                    sv, dk = codec.dec(dub["value"]), codec.dec(dub["key"])
+                    got = rec.value.get(dk) if isinstance(rec.value, dict) else rec.value
+                    if not (type(got) is type(sv) and got == sv):
+                        out.append(viol("acknowledged-store-not-fetchable", rec, want=repr(sv)[:60], got=repr(got)[:60]))
+                continue
+            if st.get("tag") == "dubious-set":
+                continue
             if m in ("get", "gat", "__getitem__", "gets", "gats"):
                 k = codec.dec(st["a"][0])
                 f = find(k)
